@@ -118,7 +118,7 @@ func onCycle(m *projsim.Model, id int) bool {
 	var walk func(i int) bool
 	walk = func(i int) bool {
 		t := m.Targets[i]
-		for _, d := range append(append(append([]int{}, t.Deps...), t.GenSrc...), t.FwdDeps...) {
+		for _, d := range append(append(append(append([]int{}, t.Deps...), t.GenSrc...), t.FwdDeps...), t.OrdDeps...) {
 			if d >= len(m.Targets) {
 				continue
 			}
@@ -141,7 +141,7 @@ func allDeps(m *projsim.Model, id int) []int {
 	t := m.Targets[id]
 	seen := map[int]bool{}
 	var out []int
-	for _, d := range append(append(append([]int{}, t.Deps...), t.GenSrc...), t.FwdDeps...) {
+	for _, d := range append(append(append(append([]int{}, t.Deps...), t.GenSrc...), t.FwdDeps...), t.OrdDeps...) {
 		if d < len(m.Targets) && !seen[d] {
 			seen[d] = true
 			out = append(out, d)
@@ -159,7 +159,7 @@ func reachesTrouble(m *projsim.Model, id int) bool {
 			return false
 		}
 		seen[i] = true
-		if m.Targets[i].Removed || onCycle(m, i) {
+		if m.Targets[i].Removed || len(m.Targets[i].GhostDeps) > 0 || onCycle(m, i) {
 			return true
 		}
 		for _, d := range allDeps(m, i) {
@@ -206,6 +206,66 @@ func checkRun(m *projsim.Model, label string, events []projsim.Event, log []proj
 	// requested target's last event precedes RunDone
 	if idx := byLabel[label]; len(idx) > 0 && idx[len(idx)-1] > doneSeq {
 		return fail("rundone-early", "RunDone was delivered before the last event of the requested target %s", label)
+	}
+	// A visited target with a dependency that names nothing reports a lone failure. The requested target
+	// is visited, and so is every dependency of a visited target (a target requests all its dependencies
+	// at once, before it looks at any outcome). The rule is applied where nothing else interferes: every
+	// other dependency of the target completed without a failure in this run.
+	{
+		completedOK := func(l string) bool {
+			idx := byLabel[l]
+			if len(idx) == 0 {
+				return false
+			}
+			k := events[idx[len(idx)-1]].Kind
+			return k == "UpToDate" || k == "Succeeded"
+		}
+		seen := map[int]bool{}
+		var visit func(i int) *ev.Verdict
+		visit = func(i int) *ev.Verdict {
+			if seen[i] || m.Targets[i].Removed {
+				return nil
+			}
+			seen[i] = true
+			t := m.Targets[i]
+			missing := len(t.GhostDeps) > 0
+			othersOK := true
+			for _, d := range allDeps(m, i) {
+				if m.Targets[d].Removed {
+					missing = true
+				} else if !completedOK(m.Label(d)) {
+					othersOK = false
+				}
+			}
+			for _, sl := range m.SourceLabels(i) {
+				if !completedOK(sl) {
+					othersOK = false
+				}
+			}
+			if missing && othersOK && !onCycle(m, i) {
+				idx := byLabel[m.Label(i)]
+				if len(idx) != 1 || events[idx[0]].Kind != "Failed" {
+					var ks []string
+					for _, j := range idx {
+						ks = append(ks, events[j].Kind)
+					}
+					return fail("missing-dependency-not-reported", "%s was visited and one of its dependencies names nothing, but its events are %v, want a lone Failed", m.Label(i), ks)
+				}
+			}
+			for _, d := range allDeps(m, i) {
+				if f := visit(d); f != nil {
+					return f
+				}
+			}
+			return nil
+		}
+		for i := range m.Targets {
+			if m.Label(i) == label && !m.Targets[i].Removed {
+				if f := visit(i); f != nil {
+					return f
+				}
+			}
+		}
 	}
 	started := map[string]bool{}
 	for _, e := range log {
@@ -432,6 +492,10 @@ func gen(t *rapid.T) Case {
 	for i := range m.Targets {
 		if rapid.IntRange(0, 3).Draw(t, "prints") == 3 {
 			m.Targets[i].Prints = []string{fmt.Sprintf("direct %d", i)}
+		}
+		if rapid.IntRange(0, 19).Draw(t, "ghost") == 7 {
+			// a dependency that names nothing: no such target in an existing package, or a package without a BUILD file
+			m.Targets[i].GhostDeps = []string{rapid.SampledFrom([]string{"//nopkg:ghost", ":ghost", "//:ghost", "//p1/none/deep:x", "//nopkg"}).Draw(t, "ghostlabel")}
 		}
 		if i > 0 && rapid.IntRange(0, 14).Draw(t, "cycle") == 11 {
 			// a forward (or self) dependency written in the BUILD file: a cycle when the other side depends on us
